@@ -34,6 +34,10 @@ func (valdec ptrDecoder) Decode(dec *Decoder, p interface{}, tag byte) {
 		if *ptr != nil {
 			*ptr = nil
 		}
+	case TagRef:
+		// share the referenced object (a pointer to a struct that is still being decoded must
+		// not be copied: its remaining fields would be lost) instead of decoding into a new element
+		dec.ReadReference(p)
 	default:
 		if *ptr == nil {
 			*ptr = valdec.et.UnsafeNew()
